@@ -1,5 +1,5 @@
 """C18: Deref / DerefMut target the single field itself."""
-import json
+import json, re as _re
 import fam2, elayer as E, blayer as B, glayer
 from common import Expander
 
@@ -34,12 +34,15 @@ def programs(ctx):
     for j, (decl, inst, fty) in enumerate([("pub struct X<T = u8>(pub T);", "X<u16>", "u16"), ("pub struct X<const N: usize = 4>(pub [u8; N]);", "X<2>", "[u8; 2]"), ("pub struct X<T: ?Sized = str>(pub Box<T>);", "X<[u8]>", "Box<[u8]>"),
                                            ("pub struct X<'a, T: 'a + Clone = u8, const N: usize = 1> { pub a: &'a [T; N] }", "X<'static, u16, 3>", "&'static [u16; 3]"),
                                            ("pub struct X<T = u8> where T: Copy { pub a: Option<T> }", "X", "Option<u8>"), ("pub struct X<T>(pub T) where Self: Sized;", "X<u8>", "u8"),
-                                           ("pub struct X<T: PartialEq<Self>>(pub Vec<T>);", "X<Y>", "Vec<Y>")]):
+                                           ("pub struct X<T: PartialEq<Self>>(pub Vec<T>);", "X<Y>", "Vec<Y>"),
+                                           # field names that are raw identifiers (keywords), or look like generated locals
+                                           ("pub struct X { pub r#type: u8 }", "X", "u8"), ("pub struct X<T> where T: Copy { pub r#fn: Box<[T]> }", "X<u8>", "Box<[u8]>"), ("pub struct X { pub r#match: (u8, u8) }", "X", "(u8, u8)"),
+                                           ("pub struct X { pub __self_0: u8 }", "X", "u8"), ("pub struct X { pub r#value: u8 }", "X", "u8")]):
         for args in ("Deref, DerefMut", "Deref(bound(..)), DerefMut, bound(T: 'static, ..)") if "<T" in decl or " T:" in decl else ("Deref, DerefMut",):
             text = ("#[derive_ex::derive_ex(%s)]\n%s\nYDECLpub trait SameTy4<B: ?Sized> {} impl<A_: ?Sized> SameTy4<A_> for A_ {}\n"
                     "pub fn target_is_field_type() where <%s as core::ops::Deref>::Target: SameTy4<%s> {}\n"
                     "pub fn deref_is_field(x: &mut %s) -> bool { let p: *const %s = &x.%s; let a = core::ptr::eq(core::ops::Deref::deref(x), p); let m: *const %s = core::ops::DerefMut::deref_mut(x); a && core::ptr::eq(m, p) }\n"
-                    "pub fn replay(_h: &str, _b: &[u8]) -> (bool, String) { (true, String::new()) }\n" % (args, decl, inst, fty, inst, fty, "a" if "{ pub a" in decl else "0", fty)).replace("YDECL", "pub struct Y; impl PartialEq<X<Y>> for Y { fn eq(&self, _o: &X<Y>) -> bool { true } }\n" if "Y" in inst else "")
+                    "pub fn replay(_h: &str, _b: &[u8]) -> (bool, String) { (true, String::new()) }\n" % (args, decl, inst, fty, inst, fty, (_re.search(r"pub ((?:r#)?\w+):", decl).group(1) if "{ pub " in decl else "0"), fty)).replace("YDECL", "pub struct Y; impl PartialEq<X<Y>> for Y { fn eq(&self, _o: &X<Y>) -> bool { true } }\n" if "Y" in inst else "")
             out.append(E.Prog("p_g%02d%d" % (j, len(args) > 20), text, [], {"describe": "derive_ex(%s) %s  [parameter defaults / Self in the parameter list: compile obligation, Target == %s at %s]" % (args, decl, fty, inst)}))
     return out
 
